@@ -16,6 +16,8 @@ type S struct {
 	c *vkit.Collector
 	g *G
 	t *T
+
+	emptyFindReported bool
 }
 
 // T rations the correspondence cases per category.
